@@ -1,11 +1,15 @@
 import Cuckoo.Model.Proto
 import Cuckoo.Model.ProtoLive
-/-! K3(i): replay of recorded synchronisation traces through the protocol acceptor. -/
+import Cuckoo.Model.Fine
+/-! K3(i): replay of recorded synchronisation traces through the protocol acceptor `Proto.accept`, rule L
+(`Model/ProtoLive.lean`) and the fine-grained acceptor `Fine.accept` (rule T, two-phase holds: the hypothesis of the
+reduction theorems of `Props/C01Red.lean`).  A bucket access of stripe `i` is replayed as a data write on location `i`
+(guard map = identity), so the data-access rule of `Fine.accept` is exactly the protocol's `access` rule. -/
 namespace Driver
 open Cuckoo.Proto
 
 structure PSt where
-  cur : Option PS := none
+  cur : Option (Cuckoo.Fine.FS Unit) := none
   live : LS := LS.init      -- retry bookkeeping (rule L, Model/ProtoLive.lean)
   n : Nat := 0
   rejected : Option (Nat × String) := none
@@ -34,7 +38,7 @@ def protoLine (st : PSt) (ws : List String) : PSt × Option String :=
     | some hp, some (n :: rest) =>
       let s0 := init hp n
       let s := { s0 with gens := n :: rest }
-      ({ cur := some s, live := LS.init, n := 0, rejected := none }, none)
+      ({ cur := some { ps := s, mem := fun _ => (), shrunk := fun _ => false }, live := LS.init, n := 0, rejected := none }, none)
     | _, _ => (st, some "bad-op")
   | ["done"] =>
     let r := match st.rejected with
@@ -44,12 +48,21 @@ def protoLine (st : PSt) (ws : List String) : PSt × Option String :=
   | ws =>
     match st.rejected, st.cur with
     | some _, _ => (st, none)
-    | none, some s =>
+    | none, some fs =>
+      let s := fs.ps
       match parseEv ws with
       | none => ({ st with rejected := some (st.n, "unparsable: " ++ " ".intercalate ws) }, none)
       | some e =>
+        let fe : Cuckoo.Fine.FEv Unit := match e with
+          | .access t stripe => .data t (.write stripe ())
+          | e => .sync e
         match accept s e, stepL s st.live e with
-        | some s', some l' => ({ st with cur := some s', live := l', n := st.n + 1 }, none)
+        | some _, some l' =>
+          match Cuckoo.Fine.accept (fun _ x => x) fs fe with
+          | some fs' => ({ st with cur := some fs', live := l', n := st.n + 1 }, none)
+          | none =>
+            ({ st with rejected := some (st.n, "rule T (a hold acquires a lock / appends a lock array after it has released one: not two-phase): "
+                                               ++ " ".intercalate ws) }, none)
         | none, _ => ({ st with rejected := some (st.n, " ".intercalate ws) }, none)
         | some _, none =>
           ({ st with rejected := some (st.n, "rule L (first lock on a snapshot whose validation already failed, no counter load since): "
